@@ -146,6 +146,22 @@ class Decide:
         o.wall_s = time.time() - self.t0
         o.queries = self.ex.stats['queries'] - self.q0
         o.paths = self.ex.stats['paths'] - self.p0
+        if self.failed is not None and self.failed[0] == 'violated' and self.failed[3] is not None:
+            # a counterexample that runs through an unmodelled (havocked) call or an uninitialised read is not
+            # evidence against the code: report it as inconclusive, naming the call
+            st = self.failed[3]
+            tainted = set()
+            for c in st.pc:
+                for n in self.ex.consts_of(c):
+                    if n.startswith(('hv!', 'uninit!')):
+                        tainted.add(n)
+            if self.failed[2] is not None:
+                for d_ in self.failed[2].decls():
+                    if d_.name().startswith(('hv!', 'uninit!')):
+                        tainted.add(d_.name())
+            if tainted:
+                hv = sorted(set(k for kind, *rest in st.notes if kind == 'havoc' for k in rest))
+                self.failed = ('inconclusive', 'counterexample depends on unmodelled calls %s: %s' % (hv[:6], self.failed[1]), None, st)
         if self.failed is None:
             o.status = 'holds'
             o.detail = '%d property queries unsat on %d paths' % (self.nprops, o.paths)
